@@ -148,6 +148,10 @@ def _load_from_file_system(hashed_grammar, path, p_time, cache_path=None):
     except FileNotFoundError:
         return None
     else:
+        if p_time > module_cache_item.change_time:
+            # The pickle is newer than the file, but it was created from an
+            # older version of the file (it was modified while being parsed).
+            return None
         _set_cache_item(hashed_grammar, path, module_cache_item)
         LOG.debug('pickle loaded: %s', path)
         return module_cache_item.node
@@ -169,13 +173,18 @@ def _set_cache_item(hashed_grammar, path, module_cache_item):
     parser_cache.setdefault(hashed_grammar, {})[path] = module_cache_item
 
 
-def try_to_save_module(hashed_grammar, file_io, module, lines, pickling=True, cache_path=None):
+def try_to_save_module(hashed_grammar, file_io, module, lines, pickling=True, cache_path=None,
+                       change_time=None):
     path = file_io.path
     try:
         p_time = None if path is None else file_io.get_last_modified()
     except OSError:
         p_time = None
         pickling = False
+    if change_time is not None and p_time is not None:
+        # The modification time from before reading the file. If it's older,
+        # the file has changed in the meantime and the module is outdated.
+        p_time = min(p_time, change_time)
 
     item = _NodeCacheItem(module, lines, p_time)
     _set_cache_item(hashed_grammar, path, item)
